@@ -437,9 +437,36 @@ def _h_mailbox(n, ascii_only=True, hi=0x10FFFF):
         raw = mbx.__bytes__()
         obj, rest = _g['Mailbox'].parse(_mv(raw), _g['Params']())
         props = [len(rest) == 0, B(obj.value == mbx.value)]
+        # the name is kept as given; only an ASCII spelling of INBOX in any letter case stands for INBOX
+        if n == 5:
+            variant = AND(*[B(c == u) | B(c == u + 32) for c, u in zip(s.items, b'INBOX')])
+            props.append(variant | B(mbx.value == s))
+            props.append(~variant | B(mbx.value == 'INBOX'))
+        elif len(mbx.value) != n:
+            return Outcome(False, witness=wit, info='a name of %d characters became one of %d' % (n, len(mbx.value)))
+        else:
+            props.append(B(mbx.value == s))
         # the encoding itself decodes to the same name
         props.append(B(_g['modutf7_decode'](_g['modutf7_encode'](s)) == s))
         return Outcome(AND(*props), witness=wit)
+    return fn
+
+
+def _h_inbox_alias():
+    """which names stand for INBOX: exactly the ASCII spellings of the five letters in any case (RFC 3501 5.1); any other
+    name of five code points - look-alikes included - stays the name it is"""
+    def fn(eng):
+        from pysymex import fresh_str, B, AND, Outcome
+        s = fresh_str(eng, 's', 5, hi=0x10FFFF)
+        for c in s.items:
+            eng.add((c.t < 0xD800) | (c.t > 0xDFFF))
+        wit = lambda m: {'name': s.concrete(m)}  # noqa: E731
+        mbx = _g['Mailbox'](s)
+        if len(mbx.value) != 5:
+            return Outcome(False, witness=wit, info='a name of 5 characters became one of %d' % len(mbx.value))
+        variant = AND(*[B(c == u) | B(c == u + 32) for c, u in zip(s.items, b'INBOX')])
+        return Outcome((variant | B(mbx.value == s)) & (~variant | B(mbx.value == 'INBOX')), witness=wit,
+                       info='a name that is not an ASCII spelling of INBOX is taken for INBOX')
     return fn
 
 
@@ -554,6 +581,8 @@ def harnesses(tier):
         hs.append(Harness('mailbox_roundtrip_bmp[len=%d]' % n, _h_mailbox(n, False, 0xFFFF),
                           {'name_len': n, 'code_points': 'U+0000..U+FFFF except surrogates'}, replay='mailbox',
                           timeout_ms=120000))
+    hs.append(Harness('inbox_alias', _h_inbox_alias(), {'name_len': 5, 'code_points': 'U+0000..U+10FFFF except surrogates'},
+                      replay='inboxalias'))
     shapes = [('n',), ('r',), ('s',), ('rs',), ('sr',), ('n', 'r'), ('r', 'n')]
     if not q:
         shapes += [('n', 'n', 'n'), ('r', 'r'), ('rs', 'n'), ('n', 's'), ('r', 'n', 'r')]
@@ -624,6 +653,13 @@ def replay(harness, w):
         for c in cands:
             if getattr(c, 'userid', None) != v or getattr(c, 'password', None) != b'p':
                 bad.append('%s -> %r' % (type(c).__name__, getattr(c, 'userid', None)))
+    elif harness == 'inboxalias':
+        from pymap.parsing.specials import Mailbox
+        name = ''.join(chr(c) for c in w['name'])
+        got = Mailbox(name).value
+        ascii_variant = name.isascii() and name.upper() == 'INBOX'
+        if (got == 'INBOX') != ascii_variant or (not ascii_variant and got != name):
+            bad.append('mailbox name %r (%s) is taken for %r' % (name, ' '.join('U+%04X' % ord(c) for c in name), got))
     elif harness == 'hdrspell':
         v = bytes.fromhex(w['v'])
         head, tail = b'a FETCH 1 BODY[HEADER.FIELDS (', b')]\r\n'
